@@ -6,12 +6,13 @@ CONSTANTS
   NP = 2
   Names = {"a", "b"}
   Vals = {1, 2}
-  Acts = {"CreateGroup", "CreateObject", "AddData", "AddToGroup", "RemoveFromGroup", "SetFlag", "Move", "RemoveViaWorkspace", "RemoveViaParent", "RemovePG", "Close", "Open", "Copy", "CreateWithUid", "DropRef", "Collect", "Purge", "LookupDead"}
+  Acts = {"CreateGroup", "CreateObject", "AddData", "AddToGroup", "SetFlag", "RemoveViaWorkspace", "RemoveViaParent", "RemovePG", "Close", "Open", "Copy", "DropRef", "Collect", "Purge", "LookupDead", "RemoveFromGroup", "Move", "MoveSame", "CreateWithUid", "AddDataFails"}
   Deviations = {"CloseKeepsOrphans"}
   MaxDepth = 60
 CONSTRAINT DepthBound
 VIEW vw
 INVARIANT TypeOK
+INVARIANT DirtyOnlyInRW
 INVARIANT ReopenEqualsLive
 INVARIANT LinksToNodes
 INVARIANT OneParent
@@ -21,6 +22,7 @@ INVARIANT NoDanglingPG
 INVARIANT RegistryMatchesMemory
 PROPERTY Footprint
 PROPERTY FrozenFile
+PROPERTY OptStaysStripped
 INVARIANT ExportState
 ACTION_CONSTRAINT ExportTrans
 CHECK_DEADLOCK FALSE
